@@ -19,6 +19,17 @@ CHECKS = {
     ref="DESIGN.md §2 C02"),
 }
 
+MIR_NOTE = ("Trusted: rustc nightly's MIR dump, mirvc's MIR parser and model table (bin/rqv/mirvc.py), z3 4.8.12 (queries cross-checked with cvc5). "
+            "Callees are havoc'd (arbitrary result, &mut arguments invalidated) except the listed models and stated contracts; unwinding out of callees is not followed. "
+            "unsat = holds for the modelled semantics within 2 loop unrollings; a sat answer is only reported after the real binary reproduces it on a generated workspace.")
+
+CHECKS["C17"] = dict(level="other", engine="mirvc",
+    text="Bounded symbolic execution of cmd_push's MIR with series length, applied-patches length, goal and Iterator::position result as 64-bit symbols: "
+         "every checked-arithmetic assert and the Index<Range> precondition of series_patches[first_patch..last_patch] is decided by z3 for all values; "
+         "candidates are turned into workspaces and run through the real binary (exit status must be 0/1).",
+    technique="symbolic execution of the compiler's MIR with an SMT solver (z3, cross-checked with cvc5); counterexamples replayed through the real binary",
+    ref="DESIGN.md §2 C17, §4", note=MIR_NOTE)
+
 NOT_APPLICABLE = {
  "C06": "thread interleavings over rayon's pool and real files: Kani does not model threads, and a hand model of the workers would not be the real code (DESIGN.md §2 C06)",
  "C09": "multi-invocation histories through files on disk (.pc/applied-patches read back by a later process): no pure core beyond the range arithmetic claimed under C17",
